@@ -161,7 +161,14 @@ async fn run_case(case: &Value) -> Value {
             "route" => {
                 let proto = step.get("proto").and_then(|x| x.as_str()).unwrap_or("Q");
                 let m = qmsg(proto, &sql_bytes(step));
-                if qr.query_parser_enabled() {
+                // "gate": "client" = the condition client.rs uses since 2a7a370 (parsed also when only the
+                // pool's plugins need the statements); default = the router's own switch (older callers)
+                let gate = if step.get("gate").and_then(|x| x.as_str()) == Some("client") {
+                    qr.parses_messages()
+                } else {
+                    qr.query_parser_enabled()
+                };
+                if gate {
                     match guarded(|| qr.parse(&m)) {
                         Ok(Ok(ast)) => {
                             o["parse"] = json!("ok");
